@@ -110,6 +110,12 @@ func (g *Gen) Program() (string, kernel.ValueSpec) {
 	g.vars, g.funcs, g.labels = nil, nil, nil
 	g.budget = g.r.Range(6, 40)
 	src := g.expr(g.r.Range(2, 5))
+	for n := 0; !ClockFree(src) && n < 20; n++ {
+		src = g.expr(g.r.Range(2, 5)) // clock- and zone-dependent natives are outside every property here
+	}
+	if !ClockFree(src) {
+		src = "."
+	}
 	return src, g.Input()
 }
 
@@ -1060,7 +1066,7 @@ func (g *Gen) rare0(depth int) string {
 	case 13:
 		return kernel.Pick(r, []string{"path(getpath([\"a\", \"b\"]))", "path(getpath([\"a\"]) | .b?)", "[paths(getpath([\"a\"])?)]?", "path(.a | getpath([\"b\"]))?", "path(getpath([\"a\", 0])?)", "path(first(getpath([\"a\"]), .b))", "del(getpath([\"a\"]))?", "getpath([\"a\"]) |= E", "(getpath([\"a\"], [\"b\"])) = 1", "path(getpath(E | [.])?)", "[paths] | map(. as $p | $p) | length", "path(..) | length", "path(limit(1; .[]?))", "path(if .a? then .a else .b? end)", "path(.a? // .b?)", "path(try .a catch .b)?", "path(.[]? | select(E))", "path(recurse(.[]?; true) | numbers)?", "path(E)?", "path(first(.a?, .b?))", "path(label $l | .a?, break $l)", "path(reduce (1, 2) as $x (.; .a?))", "path(foreach (1, 2) as $x (.; .a?))", "path(. as $d | .a?)", "path(input?)", "path($__loc__)?", "path(empty)", "path(error)?", "[path(.. | select(type == \"number\"))]", "path(.[1:]? | .[0]?)", "path(.a?[1:]?)", "path(to_entries?)?", "path(def pf: .a?; pf | pf)"})
 	case 14:
-		return kernel.Pick(r, []string{"ltrimstr(E)?", "rtrimstr(E)?", "[splits(\"a\")]?", "[splits(E | strings)]?", "ascii_downcase?", "ascii_upcase?", "@json", "tojson", "(tojson | fromjson)", "[E] | tojson", "env | type", "$ENV | type", "$ENV.PATH? | type", "input_filename", "[splits(\", *\"; null)]?", "sub(\"(?<x>a)\"; \"\\(.x)b\")?", "[match(\"a\"; \"g\").offset]?", "test(\"A\"; \"i\")?", "ascii?", "implode?", "explode?", "@base32 | @base32d", "@base64 | @base64d?", "tojson | length", "[.. | tojson] | length", "significand?", "logb?", "gamma?", "frexp?", "[.[]? | tostring]", "utf8bytelength?", "ltrimstr(\"a\") | rtrimstr(\"c\")", "trim?", "toarray", "have_literal_numbers", "getpath([\"a\"]; 1)?", "splits(\"\")?", "abs?", "trimstr(\"a\")?", "pick(.a?)?", "debug", "debug(\"m\")", "stderr", "input_line_number?", "$__prog_args?", "halt_error?", "error(null)?", "[limit(3; range(E | numbers))]?", "tostream", "[tostream] | fromstream(.[])", "getpath([\"a\"]) as [$x] | $x", "@sh?", "@csv?", "@tsv?", "@html", "@uri", "@text", "ascii(65)?", "[1, 2] | implode", "\"a,b\" | split(\",\"; null)", "\"abc\" | test(\"B\"; \"ix\")", "\"aXbxc\" | [splits(\"x\"; \"i\")]", "now | type", "\"2015-03-05T23:51:47Z\" | fromdate", "0 | todate", "0 | gmtime | mktime", "0 | strftime(\"%Y\")", "\"10\" | strptime(\"%H\") | type", "0 | localtime | type", "0 | strflocaltime(\"%Y\") | type", "0 | date", "0 | dateadd(\"seconds\"; 1)?", "\"x\" | ltrimstr(1)", "infinite | floor", "nan | tostring", "-0 | tostring", "1e1000 | tostring", "100000000000000000000 | . + 1", "9007199254740993 | tojson", "[1.0, 1.10, 1e2] | tojson", "1.000 | tostring", "(1 / 3) | tostring", "3.0 | floor | tojson", "[limit(5; range(0; 1; 0.3))]", "[range(5; 0; -2)]", "[range(0; 1; 0)] | length?", "pow(2; 0.5) | floor", "[splits(\"\\\\s\")]?"})
+		return kernel.Pick(r, []string{"ltrimstr(E)?", "rtrimstr(E)?", "[splits(\"a\")]?", "[splits(E | strings)]?", "ascii_downcase?", "ascii_upcase?", "@json", "tojson", "(tojson | fromjson)", "[E] | tojson", "env | type", "$ENV | type", "$ENV.PATH? | type", "input_filename", "[splits(\", *\"; null)]?", "sub(\"(?<x>a)\"; \"\\(.x)b\")?", "[match(\"a\"; \"g\").offset]?", "test(\"A\"; \"i\")?", "ascii?", "implode?", "explode?", "@base32 | @base32d", "@base64 | @base64d?", "tojson | length", "[.. | tojson] | length", "significand?", "logb?", "gamma?", "frexp?", "[.[]? | tostring]", "utf8bytelength?", "ltrimstr(\"a\") | rtrimstr(\"c\")", "trim?", "toarray", "have_literal_numbers", "getpath([\"a\"]; 1)?", "splits(\"\")?", "abs?", "trimstr(\"a\")?", "pick(.a?)?", "debug", "debug(\"m\")", "stderr", "input_line_number?", "$__prog_args?", "halt_error?", "error(null)?", "[limit(3; range(E | numbers))]?", "tostream", "[tostream] | fromstream(.[])", "getpath([\"a\"]) as [$x] | $x", "@sh?", "@csv?", "@tsv?", "@html", "@uri", "@text", "ascii(65)?", "[1, 2] | implode", "\"a,b\" | split(\",\"; null)", "\"abc\" | test(\"B\"; \"ix\")", "\"aXbxc\" | [splits(\"x\"; \"i\")]", "\"2015-03-05T23:51:47Z\" | fromdate", "0 | todate", "0 | gmtime | mktime", "0 | strftime(\"%Y\")", "\"10\" | strptime(\"%H\") | type", "0 | date", "0 | dateadd(\"seconds\"; 1)?", "\"x\" | ltrimstr(1)", "infinite | floor", "nan | tostring", "-0 | tostring", "1e1000 | tostring", "100000000000000000000 | . + 1", "9007199254740993 | tojson", "[1.0, 1.10, 1e2] | tojson", "1.000 | tostring", "(1 / 3) | tostring", "3.0 | floor | tojson", "[limit(5; range(0; 1; 0.3))]", "[range(5; 0; -2)]", "[range(0; 1; 0)] | length?", "pow(2; 0.5) | floor", "[splits(\"\\\\s\")]?"})
 	default:
 		return kernel.Pick(r, []string{"input?", "[inputs]?", "first(inputs)?", "input as $x | $x?", "try input catch .", "[limit(2; inputs)]?", "(input? // 1)", "$__loc__", "$__loc__.line", "{$__loc__}", "[$__loc__] | length", "try error($__loc__) catch .line", "input_line_number?", "get_search_list?", "[splits(\"a\")?]", "ltrimstr(\"x\")", "modulemeta?", "getpath([\"a\"])?", "halt_error?", "(label $f | E, break $f)", "label $a | label $b | (E, break $a, break $b)", "label $a | (label $b | E, break $a), 9", "[label $a | .[]? | if . == 2 then break $a else . end]", "first(label $a | (E, break $a))", "[range(3) as $i | label $a | $i, break $a]", "label $a | def lf: break $a; (E, lf)", "label $a | try break $a catch .", "label $a | (break $a)?", "def lf(g): label $a | g, break $a; [lf(E)]", "label $a | reduce (1, 2) as $x (0; break $a)", "[label $a | foreach (1, 2, 3) as $x (0; . + $x; if . > 2 then ., break $a else . end)]"})
 	}
